@@ -122,6 +122,31 @@ func c09(p *Prog, r *Report) {
 	r.Check(len(puts) >= 1, R1, "VerifyRequest registers the state with cache.Put", p.Pos(ver.Pos()), fmt.Sprintf("%d Put site(s)", len(puts)), "no cache.Put in VerifyRequest: a verified client is never registered, so every FinalizeIndex would refuse it")
 
 	// ---- R2: guard shape in FinalizeIndex
+	// which ClientState map is the binding map (anonymous issuer origin ID ->
+	// anonymous origin ID) is decided by role, not by name: it is the one map
+	// whose looked-up value feeds a branch condition
+	bindingField := ""
+	{
+		cands := map[string]bool{}
+		for _, in := range upd {
+			f := in.Parent()
+			for f.Parent() != nil {
+				f = f.Parent()
+			}
+			if fld, ok := clientStateField(in.(*ssa.MapUpdate).Map); ok && mapReadForDecision(f, fld) {
+				cands[fld] = true
+			}
+		}
+		if len(cands) == 1 {
+			for k := range cands {
+				bindingField = k
+			}
+		}
+	}
+	if bindingField == "" {
+		r.Fail(R2, "the binding map of ClientState", p.Pos(fin.Pos()), "no ClientState map (or more than one) has its looked-up value used in a decision: the collision check is missing or ambiguous")
+		return
+	}
 	// the binding step is written in FinalizeIndex itself or in a helper that
 	// only FinalizeIndex reaches; the guard-shape rules are evaluated where the
 	// update is, with the helper's parameters bound to what FinalizeIndex passes
@@ -133,7 +158,7 @@ func c09(p *Prog, r *Report) {
 		for root.Parent() != nil {
 			root = root.Parent()
 		}
-		if fld, _ := clientStateField(in.(*ssa.MapUpdate).Map); fld == "clientIndices" && root != fin {
+		if fld, _ := clientStateField(in.(*ssa.MapUpdate).Map); fld == bindingField && root != fin {
 			for _, ds := range p.deepSites(fs, func(n string) bool { return n == shortName(root) }) {
 				if c, ok := ds.Site.(*ssa.Call); ok && c.Parent() == fin {
 					bf, callB = root, c
@@ -153,7 +178,7 @@ func c09(p *Prog, r *Report) {
 	nUpd := 0
 	for _, in := range upd {
 		mu := in.(*ssa.MapUpdate)
-		if fld, _ := clientStateField(mu.Map); fld == "clientIndices" {
+		if fld, _ := clientStateField(mu.Map); fld == bindingField {
 			update = mu
 			nUpd++
 		}
@@ -161,7 +186,7 @@ func c09(p *Prog, r *Report) {
 	for _, b := range bf.Blocks {
 		for _, in := range b.Instrs {
 			if lk, ok := in.(*ssa.Lookup); ok && lk.CommaOk {
-				if fld, ok := clientStateField(lk.X); ok && fld == "clientIndices" {
+				if fld, ok := clientStateField(lk.X); ok && fld == bindingField {
 					lookup = lk
 				}
 			}
@@ -298,7 +323,7 @@ func c09(p *Prog, r *Report) {
 			// an insert-if-absent into a map no decision reads does not alter
 			// any accepted binding
 			mu := u.(*ssa.MapUpdate)
-			if fld, _ := clientStateField(mu.Map); fld != "clientIndices" && insertIfAbsent(s, mu) && !mapReadForDecision(fin, fld) {
+			if fld, _ := clientStateField(mu.Map); fld != bindingField && insertIfAbsent(s, mu) && !mapReadForDecision(fin, fld) {
 				r.Note("update of ClientState.%s at %s precedes an error return but only inserts an absent key into a map that no guard reads", fld, p.InstrPos(u))
 				continue
 			}
